@@ -422,6 +422,13 @@ fn run_handle(v: &Value, out: &mut Vec<String>) {
             "capture" => {
                 let _ = mk(&script).capture()?;
             }
+            "capture_data" => {
+                // much more input than a pipe holds, for a child that may exit without reading it
+                let _ = mk(&script).stdin(vec![b'x'; write_some]).capture()?;
+            }
+            "pl_capture_data" => {
+                let _ = (mk(&script) | mk(&["R".to_string(), "x0".to_string()])).stdin(vec![b'x'; write_some]).capture()?;
+            }
             "pl_join" => {
                 let _ = (mk(&script) | mk(&["R".to_string(), "x0".to_string()])).stdout(NullFile).join()?;
             }
